@@ -86,12 +86,30 @@ class SimUnixTransport(SimTransport):
     unix = True
 
 
+class SimWrappedUnixTransport(SimTransport):
+    """A UNIX transport seen through a wrapper (twisted.protocols.policies.ProtocolWrapper and friends forward the real
+    transport's interfaces per INSTANCE, with directlyProvides): the class itself declares nothing."""
+    unix = True
+
+    def __init__(self, *a, **kw):
+        SimTransport.__init__(self, *a, **kw)
+        from zope.interface import alsoProvides
+        alsoProvides(self, interfaces.IUNIXTransport)
+
+
+_unix_endpoints = [0]
+
+
 class Endpoint:
     """A protocol attached to a SimTransport, with reactor-like delivery rules."""
 
     def __init__(self, proto, transport=None, unix=False, creds=(4242, 0, 0), name='ep'):
         self.proto = proto
-        self.t = transport or (SimUnixTransport(creds, name) if unix else SimTransport(creds, name))
+        if transport is None and unix:
+            # every other UNIX endpoint is a wrapped one
+            _unix_endpoints[0] += 1
+            transport = (SimWrappedUnixTransport if _unix_endpoints[0] % 2 == 0 else SimUnixTransport)(creds, name)
+        self.t = transport or SimTransport(creds, name)
         self.crashes = []        # exceptions that escaped dataReceived
         self.lost = 0
         self.name = name
